@@ -204,7 +204,19 @@ func (g *pg) macroDef(i int, sc scope) (val.V, macroInfo, bool) {
 	g.use("macro")
 	name := []string{"m1", "m2", "m3"}[i]
 	uq := func(s string) val.V { return call("unquote", sym(s)) }
-	switch g.pick("macrokind", 4) {
+	switch g.pick("macrokind", 6) {
+	case 4: // throws while it is being expanded (the error crosses the macro expansion)
+		if g.f.Try {
+			g.use("macro-throws-at-expansion")
+			return call("defmacro", sym(name), call("fn", lst(sym("x")), call("throw", call("list", call("quote", sym("expansion-of")), sym("x"))))), macroInfo{name, 1}, true
+		}
+		fallthrough
+	case 5: // expands to a throw of its (unevaluated) operand form
+		if g.f.Try {
+			g.use("macro-expands-to-throw")
+			return call("defmacro", sym(name), call("fn", lst(sym("x")), call("list", call("quote", sym("throw")), call("list", call("quote", sym("quote")), sym("x"))))), macroInfo{name, 1}, true
+		}
+		fallthrough
 	case 0: // when-like: (m c x) => (if c x nil)
 		tpl := call("quasiquote", call("if", uq("c"), uq("x"), val.N()))
 		return call("defmacro", sym(name), call("fn", lst(sym("c"), sym("x")), tpl)), macroInfo{name, 2}, true
